@@ -93,6 +93,13 @@ def _codec(ctx: Ctx, name: str, src_var_kind: str) -> None:
         adv = [s for s in ast.walk(t) if isinstance(s, ast.AugAssign) and unparse(s.target) == "current_position" and unparse(s.value) == i]
         brk = any(isinstance(s, ast.Break) for s in t.body)
         ctx.check(bool(adv) and brk, f"Table.{name}:hit", "a hit advances by the matched length and stops trying shorter candidates")
+        # every cursor move of a hit (outside the loop over an entry's raw argument bytes) is by the matched length
+        in_inner = {id(x) for lp2 in ast.walk(t) if isinstance(lp2, (ast.For, ast.While)) for x in ast.walk(lp2)}
+        for s_ in ast.walk(t):
+            if isinstance(s_, ast.AugAssign) and unparse(s_.target) == "current_position" and id(s_) not in in_inner:
+                if unparse(s_.value) != i and const_int(s_.value) is None:
+                    raise AnalysisError(f"Table.{name}: cursor advance `{unparse(s_)}` on a hit not modelled")
+                ctx.check(unparse(s_.value) == i and isinstance(s_.op, ast.Add), f"Table.{name}:hit:advance", f"a matched entry of length {i} moves the cursor by {i}; found `{unparse(s_)}`", fact=True)
         for h in t.handlers:
             ctx.check(unparse(h.type) == "KeyError" and all(isinstance(s, ast.Pass) for s in h.body), f"Table.{name}:miss", "a miss tries the next shorter candidate")
     else:
@@ -194,6 +201,15 @@ def r3_line_grammar(ctx: Ctx) -> None:
         lits = [chr(av) for op, av in items if str(op) == "LITERAL"]
         shape_ok = "=" in lits and len(groups) == 3
     ctx.check(shape_ok, "table_line_regex:shape", f"HEX [':' HEX] '=' TEXT; pattern {pat!r}")
+    # TEXT starts right after the `=`: blanks there belong to the entry (`20= ` is the code of a space)
+    items = list(tree)
+    eqs = [k for k, (op, av) in enumerate(items) if str(op) == "LITERAL" and chr(av) == "="]
+    if len(eqs) == 1 and eqs[0] + 1 < len(items):
+        op_n, av_n = items[eqs[0] + 1]
+        ctx.check(str(op_n) == "SUBPATTERN" and av_n[0] == groups.get("text"), "table_line_regex:text-follows-equals",
+                  f"the text group starts immediately after `=`, so an entry's leading blanks are kept; pattern {pat!r}", fact=True)
+    elif shape_ok:
+        raise AnalysisError(f"table_line_regex: `=` separator not found at the top level of {pat!r}")
     pl = ctx.repo.func(SCRIPT, "Table.parse_table_line")
     import re as _re18b
 
